@@ -48,6 +48,15 @@ def reflect_plans(rng):
             return "Identifier(name=%r)" % self.n
 
     plans = []
+    # several literals on ONE line whose contents, read together by a scanner with other rules than the lexer's (escapes, nested quotes,
+    # comment markers), would pair up across the literals: a trailing backslash or quote in one, comment openers / closers in the next ones
+    for first in ("a\\", "a\\\\", "a'", "it's\\", "\\"):
+        for second, fourth in (("b/*", "*/d"), ("b//", "c"), ("/*", "*/"), ("#", "x"), ("b/*", "d"), ("'", "'"), ("\\", "/*")):
+            def build3(vals):
+                lits = [gen.lit_str(v, rng) for v in vals]
+                cond = ("if", ("cmp", ("id", "note"), "in", ("tuple", [("lit", l) for l in lits])), ("ret", [(lits[0], "1"), (lits[-1], "1")]), ("else", ("ret", [(L("o", quote='"'), "1")])))
+                return gen.Program("e", None, ["u"], cond, {"u": "any", "note": "any"})
+            plans.append([build3(["zz", "zz", "zz", "zz"]), build3([first, second, "c", fourth])])
     # literals that spell a piece of the generated text itself, alone and with a call appended
     for frag in gen.generated_fragments():
         for text in (frag, frag + "PWNED()", frag + "\rPWNED() #", "x" + frag + "y = PWNED()"):
@@ -234,7 +243,8 @@ def run_batch(ctx, n, with_model=True):
         # the same substitution games inside a source of more than 64 KiB (a pre-pass or buffer that only exists for big sources)
         pad = "/* " + "banner line\n" * 6000 + " */\n"
         big = []
-        for variants in plan[:12]:
+        nplain = n
+        for variants in plan[:8] + plan[nplain:nplain + 35]:
             big.append([_Padded(v, pad) for v in variants])
         plan += big
         reqs = [{"op": "run", "text": rtext(v), "envs": []} for vs in plan for v in vs]
